@@ -34,4 +34,34 @@ PROPS = {
         "need_tags": ["pol/leaf", "pol/like", "pol/rnd", "pol/perm-ops", "pol/perm-elems", "pol/anti-and", "pol/anti-all", "pol/cat", "pol/corpus"],
         "trusted": ["datamodel.DeepEqual (go-ipld-prime) is modelled by deep_equal on the basicnode kinds", "integers beyond int64 (uint64 nodes) are outside this engine; see C09"],
     },
+    "C01": {
+        "engines": ["chain"],
+        "rule": 'chain engine through the public ExecutionAllowed / ExecutionAllowedWithArgsHook with an in-memory loader: exhaustive over principals for chains of length 1 and 2 (every (issuer, audience, subject|undefined) per link over 4 principals x 3 commands; quick tier keeps every first link addressed to the invoker and half of the others); seeded random chains of length 1..12 generated conforming (repeated principals, self-delegation, attenuating commands, satisfied policies, past nbf / future exp) then 0-3 deviations (wrong audience / issuer / subject, powerline, widened / sibling / textual-prefix command, expired, not yet active, failing statement, missing delegation, permuted / duplicated / truncated / foreign-rooted chain, expired invocation), audience in {unset, subject, invoker, random}, irrelevant fields randomised, argument hooks (failing, identity, breaking, repairing); one failing statement of each kind at each position of chains of length 1..4; IsValidAt on single tokens at +-{1ns,1s,1h,1e9s} around each bound for every present/absent combination; the time stage at exact instants through the verif hook',
+        "need_tags": ["chain/exh1", "chain/exh2", "chain/conform", "chain/deviate", "chain/policy-place", "chain/hook-fails", "chain/hook-breaks", "time/dlg", "time/inv", "time/stage", "chain/empty"],
+        "trusted": ["the loader is an arbitrary partial function from CIDs to delegations (an in-memory map in the harness)", "wall-clock instants are compared with a 60 s slack: bounds are placed at least 1 h from the instant of the check; exact instants go through the verif hook VerifTimeBoundAt", "did.DID equality is modelled as equality of the printed did:key strings"],
+    },
+    "C02": {
+        "engines": ["chain"],
+        "rule": 'chain engine through the public ExecutionAllowed / ExecutionAllowedWithArgsHook with an in-memory loader: exhaustive over principals for chains of length 1 and 2 (every (issuer, audience, subject|undefined) per link over 4 principals x 3 commands; quick tier keeps every first link addressed to the invoker and half of the others); seeded random chains of length 1..12 generated conforming (repeated principals, self-delegation, attenuating commands, satisfied policies, past nbf / future exp) then 0-3 deviations (wrong audience / issuer / subject, powerline, widened / sibling / textual-prefix command, expired, not yet active, failing statement, missing delegation, permuted / duplicated / truncated / foreign-rooted chain, expired invocation), audience in {unset, subject, invoker, random}, irrelevant fields randomised, argument hooks (failing, identity, breaking, repairing); one failing statement of each kind at each position of chains of length 1..4; IsValidAt on single tokens at +-{1ns,1s,1h,1e9s} around each bound for every present/absent combination; the time stage at exact instants through the verif hook',
+        "need_tags": ["chain/exh1", "chain/exh2", "chain/conform", "chain/deviate", "chain/policy-place", "chain/hook-fails", "chain/hook-breaks", "time/dlg", "time/inv", "time/stage", "chain/empty"],
+        "trusted": ["the loader is an arbitrary partial function from CIDs to delegations (an in-memory map in the harness)", "wall-clock instants are compared with a 60 s slack: bounds are placed at least 1 h from the instant of the check; exact instants go through the verif hook VerifTimeBoundAt", "did.DID equality is modelled as equality of the printed did:key strings"],
+    },
+    "C03": {
+        "engines": ["chain"],
+        "rule": 'chain engine through the public ExecutionAllowed / ExecutionAllowedWithArgsHook with an in-memory loader: exhaustive over principals for chains of length 1 and 2 (every (issuer, audience, subject|undefined) per link over 4 principals x 3 commands; quick tier keeps every first link addressed to the invoker and half of the others); seeded random chains of length 1..12 generated conforming (repeated principals, self-delegation, attenuating commands, satisfied policies, past nbf / future exp) then 0-3 deviations (wrong audience / issuer / subject, powerline, widened / sibling / textual-prefix command, expired, not yet active, failing statement, missing delegation, permuted / duplicated / truncated / foreign-rooted chain, expired invocation), audience in {unset, subject, invoker, random}, irrelevant fields randomised, argument hooks (failing, identity, breaking, repairing); one failing statement of each kind at each position of chains of length 1..4; IsValidAt on single tokens at +-{1ns,1s,1h,1e9s} around each bound for every present/absent combination; the time stage at exact instants through the verif hook',
+        "need_tags": ["chain/exh1", "chain/exh2", "chain/conform", "chain/deviate", "chain/policy-place", "chain/hook-fails", "chain/hook-breaks", "time/dlg", "time/inv", "time/stage", "chain/empty"],
+        "trusted": ["the loader is an arbitrary partial function from CIDs to delegations (an in-memory map in the harness)", "wall-clock instants are compared with a 60 s slack: bounds are placed at least 1 h from the instant of the check; exact instants go through the verif hook VerifTimeBoundAt", "did.DID equality is modelled as equality of the printed did:key strings"],
+    },
+    "C04": {
+        "engines": ["chain"],
+        "rule": 'chain engine through the public ExecutionAllowed / ExecutionAllowedWithArgsHook with an in-memory loader: exhaustive over principals for chains of length 1 and 2 (every (issuer, audience, subject|undefined) per link over 4 principals x 3 commands; quick tier keeps every first link addressed to the invoker and half of the others); seeded random chains of length 1..12 generated conforming (repeated principals, self-delegation, attenuating commands, satisfied policies, past nbf / future exp) then 0-3 deviations (wrong audience / issuer / subject, powerline, widened / sibling / textual-prefix command, expired, not yet active, failing statement, missing delegation, permuted / duplicated / truncated / foreign-rooted chain, expired invocation), audience in {unset, subject, invoker, random}, irrelevant fields randomised, argument hooks (failing, identity, breaking, repairing); one failing statement of each kind at each position of chains of length 1..4; IsValidAt on single tokens at +-{1ns,1s,1h,1e9s} around each bound for every present/absent combination; the time stage at exact instants through the verif hook',
+        "need_tags": ["chain/exh1", "chain/exh2", "chain/conform", "chain/deviate", "chain/policy-place", "chain/hook-fails", "chain/hook-breaks", "time/dlg", "time/inv", "time/stage", "chain/empty"],
+        "trusted": ["the loader is an arbitrary partial function from CIDs to delegations (an in-memory map in the harness)", "wall-clock instants are compared with a 60 s slack: bounds are placed at least 1 h from the instant of the check; exact instants go through the verif hook VerifTimeBoundAt", "did.DID equality is modelled as equality of the printed did:key strings"],
+    },
+    "C05": {
+        "engines": ["chain"],
+        "rule": 'chain engine through the public ExecutionAllowed / ExecutionAllowedWithArgsHook with an in-memory loader: exhaustive over principals for chains of length 1 and 2 (every (issuer, audience, subject|undefined) per link over 4 principals x 3 commands; quick tier keeps every first link addressed to the invoker and half of the others); seeded random chains of length 1..12 generated conforming (repeated principals, self-delegation, attenuating commands, satisfied policies, past nbf / future exp) then 0-3 deviations (wrong audience / issuer / subject, powerline, widened / sibling / textual-prefix command, expired, not yet active, failing statement, missing delegation, permuted / duplicated / truncated / foreign-rooted chain, expired invocation), audience in {unset, subject, invoker, random}, irrelevant fields randomised, argument hooks (failing, identity, breaking, repairing); one failing statement of each kind at each position of chains of length 1..4; IsValidAt on single tokens at +-{1ns,1s,1h,1e9s} around each bound for every present/absent combination; the time stage at exact instants through the verif hook',
+        "need_tags": ["chain/exh1", "chain/exh2", "chain/conform", "chain/deviate", "chain/policy-place", "chain/hook-fails", "chain/hook-breaks", "time/dlg", "time/inv", "time/stage", "chain/empty"],
+        "trusted": ["the loader is an arbitrary partial function from CIDs to delegations (an in-memory map in the harness)", "wall-clock instants are compared with a 60 s slack: bounds are placed at least 1 h from the instant of the check; exact instants go through the verif hook VerifTimeBoundAt", "did.DID equality is modelled as equality of the printed did:key strings"],
+    },
 }
